@@ -42,3 +42,5 @@ class BlockLayout:
             element.render(io, self._indentations[i] + indentation)
 
         self._elements = []
+        self._indentations = []
+        self._alignment = LabelAlignment()
